@@ -50,6 +50,8 @@ def rec_com(seed):
     if rng.random() < 0.1:
         d = np.zeros_like(d)
         data = [[0] * w for _ in range(h)]
+    # the centre of mass is scale free: the same integers times a power of two (tiny physical units, huge counts) give the same centroid
+    d = d * rng.choice([1.0, 1.0, 2.0 ** -60, 2.0 ** -30, 2.0 ** 40])
     res = call(funcs()['com'], d, mask)
     return {'id': seed, 'kind': 'com', 'data': data, 'bad': bad, 'isnan': res is None, 'x': fx(res[0]) if res else 0, 'y': fx(res[1]) if res else 0}
 
@@ -109,7 +111,7 @@ def rec_pair(seed):
     elif rel == 'transpose':
         d2, m2 = data.T, None if mask is None else mask.T
     elif rel == 'rescale':
-        d2 = data * rng.choice([0.125, 3.0, 8.0, 1000.0])
+        d2 = data * (rng.choice([0.125, 3.0, 8.0, 1000.0, 2.0 ** -50, 1e-17, 1e12]) if name in ('com', 'quadratic') else rng.choice([0.125, 3.0, 8.0, 1000.0]))
     else:
         d2 = data.copy(); d2[mask] = rng.choice([-50.0, 1e5, 0.0])
     e1 = e2 = None
